@@ -69,3 +69,18 @@ Theorem C04_true_tie_refuted :
     (gV g 200 2 > 1 - (1 # 1000000000))%Q.
 Proof. destruct k4_tie_missed as (sl1 & rs & it & H). exists k4_game, sl1, rs, it. exact H. Qed.
 Print Assumptions C04_true_tie_refuted.
+
+(** exact rationals: rounding to 6 digits moves a value by at most 5e-7, so two successors whose
+    reported values differ by more than 1e-6 are never confused: the Player 1 scan does not list the
+    worse one, the Player 2 scan does not list the better one *)
+From CR Require Import Proofs.RoundQ.
+Theorem C04_rounding_error : forall a : Q, (Qabs.Qabs (qround6 a - a) <= 1 # 2000000)%Q.
+Proof. exact qround6_close. Qed.
+Theorem C04_separated_values : forall (raw : list (string * Q)) a1 x1 a2 x2 m0,
+  In (a1, x1) raw -> In (a2, x2) raw -> (x1 - x2 > 1 # 1000000)%Q ->
+  let vals := map (fun ax => (fst ax, qround6 (snd ax))) raw in
+  eqb qops (qround6 x2) (vmax qops m0 vals) = false /\
+  eqb qops (qround6 x1) (vmin qops m0 vals) = false.
+Proof. exact scan_separated. Qed.
+Print Assumptions C04_rounding_error.
+Print Assumptions C04_separated_values.
